@@ -4,6 +4,7 @@ ID=$1; shift
 for d in /tmp/mut-$ID/_out/m*; do
   [ -f $d/patch.diff ] || continue
   k=$(basename $d)
+  if [ -z "$FORCE" ] && [ -s /verif/seeded/$ID-$k/result.json ] && grep -q '"caught"' /verif/seeded/$ID-$k/result.json; then echo "$ID $k: already done"; continue; fi
   out=$(timeout 4000 python3 /verif/tools/mutest.py $ID $d "$@" | tail -1)
   dest=/verif/seeded/$ID-$k
   mkdir -p $dest
